@@ -5,6 +5,7 @@ From MPD Require Import Bytes Tables Show TagModel TagSpec DriverCmd DriverConn 
 From MPD Require Import Bytes Tables Show TagModel TagSpec DriverCmd DriverConn DriverFrame DriverCommands.
 From MPD Require Import Bytes Tables Show TagModel TagSpec DriverCmd DriverConn DriverFrame DriverFilter.
 From MPD Require Import Bytes Tables Show TagModel TagSpec DriverCmd DriverConn DriverFrame DriverTyped.
+From MPD Require Import DriverGrammar.
 Open Scope N_scope.
 
 Definition find_tagv (ident : bytes) : option tagv :=
@@ -113,6 +114,7 @@ Definition dispatch (line : bytes) : bytes :=
     else if is_filter_kind kind then run_filter kind args
     else if is_typed_kind kind then run_typed kind args
     else if is_typed_spec_kind kind then run_spec kind args
+    else if is_grammar_kind kind then run_grammar kind args
     else b "unknown-kind " ++ kind
   | [] => b "empty"
   end.
